@@ -49,6 +49,6 @@ def one(sid):
     return sid, {k: (v['violation_lines'], v['exit']) for k, v in det.items()}
 
 
-with ThreadPoolExecutor(max_workers=2) as ex:
+with ThreadPoolExecutor(max_workers=int(os.environ.get("SEED_WORKERS", "2"))) as ex:
     for sid, r in ex.map(one, ids):
         print(sid, r, flush=True)
